@@ -1,5 +1,5 @@
 (** * Check/C02: a self-named parameter resolves outward; the cursor decides. *)
-From PLS Require Export Check.C01.
+From PLS Require Export Check.C04.
 
 Section C02.
   Variable dk : disk.
@@ -40,6 +40,12 @@ Section C02.
             + bit (1 <? len (filter (fun d' => path_eqb (d_file d') F && N.eqb (d_line d') (l + 1)) (defs s))) 128
         | _, _ => bit (negb (opt_def_eqb m ans)) 1
         end
+    | QRefsX d ans gotos =>
+        (* references from the function name concern the overriding fixture: its own
+           same-named parameter is a reference to the NEXT definition outward *)
+        bit (negb (corr dk roots s q)) 1
+        + bit (negb (refs_inverse_ok d ans gotos)) 2
+        + bit (negb (refs_inverse_ok d (refs dk roots s d) (model_gotos dk roots s d))) 8
     | _ => bit (negb (corr dk roots s q)) 1
     end.
 
